@@ -114,3 +114,23 @@ add("C13",
     "dropped when declared, which an unpickled copy built against later class declarations need not reproduce). Known finding classprovides-unpickle-not-equal. "
     "CPython's pickle machinery is modelled, not verified.",
     "Lean 4 proof (history invariant of the pickling state) + reduction correspondence + exhaustive-protocol round-trip oracle", "6/C13")
+add("C05",
+    "Theorem C05_transparent on the abstract cache machine ZI.Cache (one lookup object: registrations of the whole chain, cached resolution orders, a cache, the "
+    "set of specifications it is subscribed to): after ANY well-formed history of chain mutations, re-basings and lookups, a lookup returns exactly what it returns "
+    "after the same history with every earlier lookup erased — by the invariant 'every cache entry equals the uncached answer now and all its specifications are "
+    "subscribed' (inv_step, inv_run), lookup_transparent, run_reg_sro, wf_erase. The integrated World model (three caches, push and verifying flavours, "
+    "declarations, weak tables, super specifications) is compared with both twins on histories interleaving ten mutation kinds with all nine entry points, and the "
+    "statement itself is evaluated on the real code: every lookup is also put to a registry chain that received the same mutations and never performed a lookup.",
+    "stated_not_proved: refinement World -> ZI.Cache (invariants I3-I5: sub-registry notification / generation snapshots / ro = C3 of current bases). "
+    "Guard G-provided (the __iro__ of an interface currently used as *provided* is not changed: the code documents the missing invalidation as a TODO and the "
+    "statement speaks of required specifications).",
+    "Lean 4 proof (cache invariant over histories on an abstract machine) + differential correspondence of the integrated model + never-queried-twin oracle on the real code", "6/C05")
+add("C19",
+    "Theorems C19_mro_remainder (for every duplicate-free MRO containing C, the classes whose specifications super(C, ob)'s specification is built from are exactly "
+    "those strictly after C — never C, never an earlier class), C19_cache_hit_same (a live per-class cache entry returns the same specification object), "
+    "C03_ro_eq_c3 (the model's MRO is C3, tied to real __mro__ by the correspondence). The integrated World model (superSpec, its cache dropped by "
+    "Implements.changed, registrations keyed on proxy specifications, adaptation passing ob itself) is compared with both twins on class DAGs with diamonds and "
+    "mixins and declaration histories before and after the first super query; every query involving a proxy is judged on the real objects against the union of "
+    "implementedBy(D) for D after C in type(ob).__mro__.",
+    "stated_not_proved: C19_super / C19_stable as invariants over all World histories.",
+    "Lean 4 proof (MRO-remainder lemma, cache hit) + differential correspondence of the integrated model + MRO-remainder oracle on the real objects", "6/C19")
